@@ -196,6 +196,8 @@ pub struct StreamState {
     pub pipe_op: Option<u32>,
     pub ended_seen: bool,
     pub cancelled_items: u32,
+    /// the gate that the item being processed is waiting for (None once it has got past it)
+    pub item_waiting_gate: Option<usize>,
 }
 
 pub struct OutState {
@@ -290,6 +292,7 @@ pub struct Cover {
     pub drops_while_panicking: u64,
     pub kept_wakers: u64,
     pub depth_changes: u64,
+    pub chained_pipes: u64,
     /// state of the object's queue at the moment each kind of call / event reached it (reach matrix)
     pub at_desync: [u64; 8],
     pub at_sync: [u64; 8],
@@ -524,6 +527,7 @@ impl World {
                     pipe_op: None,
                     ended_seen: false,
                     cancelled_items: 0,
+                    item_waiting_gate: None,
                 })
                 .collect(),
             outs: (0..prog.n_outs).map(|_| OutState { stream: None, taken: false, src: None, outputs: vec![], ended: false, dropped_at: None, waiting: None, depth: 5, depth_dirty: false }).collect(),
